@@ -189,6 +189,8 @@ package dockerlog
 
 // The closure run for every container writes exactly its own slot of iters.
 //@ func (*Querier).SelectLogs$2
+//@   per_iteration idx
+//@   per_iteration ctr
 //@   logical other int
 //@   capture ol = call(q.openLog, 0)
 //@   requires 0 <= idx && idx < len(iters)
